@@ -405,9 +405,10 @@ func init() {
 	register(&Property{
 		ID: "C20",
 		Explanation: "Decides structural necessary conditions of 'parse events form a well-nested tree': VARIANT(flush-after-extend): in recoverFromError the error node is flushed only after its range was extended over pending invalid tokens (otherwise tokens inside the node are reported after it). VARIANT(trim-trailing-empty): every parse loop that trims trailing empty symbols does so in a loop (all of them), so a node never runs into following whitespace/comments that are still pending. " +
-			"STACKIDX: reported ranges are non-empty sub-ranges of the rule. Not decided: the tree builder, nesting under recovery in general. INITCOV: every field of Lexer/Parser/TokenStream that another method modifies is assigned on every path by Init (or by the first block of parse()), so no run state of an earlier input (pending tokens of a cancelled parse) reaches the next input's event stream; four audited exemptions. INITCOV: every field of Lexer/Parser/TokenStream that another method modifies is assigned on every path by Init (or by the first block of parse()), so no run state of an earlier input (pending tokens of a cancelled parse) reaches the next input's event stream; audited exemptions are listed in the rule. GUARD(root-adopts-all): builder.build() of each generated ast package either fails unless one node is left on the stack or adds the file node with an end offset beyond the input, so that every reported node (an empty node at the very end included) is in the tree. GUARD(sibling-boundary) as in C21. TMPL(switch-guard) as in C02 (whitespace trimming is generated for every grammar that needs it). LOOPSHAPE(marker-transparent): the predicates that decide where a rule's reported range ends (HasTrailingNulls and siblings) look through state markers, so fixTrailingWS is generated for `X: a Nullable .marker` too (otherwise the node runs into the following whitespace and is reported before the comments inside it). BOUND(trim-floor) as in C02. SIBLING(flush-bound): every flush implementation (token streams of tm/js, Parser.flush of json/test) stops at the first pending token that ends after the symbol's end (tok.endoffset > sym.endoffset), so tokens inside a node are reported before it.",
-		Rules: []string{"INITCOV", "VARIANT", "STACKIDX", "GUARD(root-adopts-all)", "GUARD(sibling-boundary)", "TMPL(switch-guard)", "LOOPSHAPE(marker-transparent)", "BOUND(trim-floor)", "SIBLING(flush-bound)"},
+			"STACKIDX: reported ranges are non-empty sub-ranges of the rule. Not decided: the tree builder, nesting under recovery in general. INITCOV: every field of Lexer/Parser/TokenStream that another method modifies is assigned on every path by Init (or by the first block of parse()), so no run state of an earlier input (pending tokens of a cancelled parse) reaches the next input's event stream; four audited exemptions. INITCOV: every field of Lexer/Parser/TokenStream that another method modifies is assigned on every path by Init (or by the first block of parse()), so no run state of an earlier input (pending tokens of a cancelled parse) reaches the next input's event stream; audited exemptions are listed in the rule. GUARD(root-adopts-all): builder.build() of each generated ast package either fails unless one node is left on the stack or adds the file node with an end offset beyond the input, so that every reported node (an empty node at the very end included) is in the tree. GUARD(sibling-boundary) as in C21. TMPL(switch-guard) as in C02 (whitespace trimming is generated for every grammar that needs it). LOOPSHAPE(marker-transparent): the predicates that decide where a rule's reported range ends (HasTrailingNulls and siblings) look through state markers, so fixTrailingWS is generated for `X: a Nullable .marker` too (otherwise the node runs into the following whitespace and is reported before the comments inside it). BOUND(trim-floor) as in C02. SIBLING(flush-bound): every flush implementation (token streams of tm/js, Parser.flush of json/test) stops at the first pending token that ends after the symbol's end (tok.endoffset > sym.endoffset), so tokens inside a node are reported before it. MINMAX(error-range): in recoverFromError (tm, js) the start of the error range is replaced by a pending token's offset only under `tok.offset < s` (the range never inverts).",
+		Rules: []string{"INITCOV", "VARIANT", "STACKIDX", "GUARD(root-adopts-all)", "GUARD(sibling-boundary)", "TMPL(switch-guard)", "LOOPSHAPE(marker-transparent)", "BOUND(trim-floor)", "SIBLING(flush-bound)", "MINMAX(error-range)"},
 		Run: func(c *Ctx) {
+			ruleERRORRANGE(c)
 			ruleINITCOV(c, "TokenStream", "Lexer", "Parser")
 			ruleSWITCHGUARD(c)
 			ruleROOTADOPT(c)
